@@ -512,7 +512,7 @@ class ExprMixin:
             j = fresh("j", IntS)
             items = st.hread("$litems", r)
             return z3.Exists([j], z3.And(0 <= j, j < st.hread("$llen", r), z3.Select(items, j) == self.to_z(st, item)))
-        if k == "str":
+        if k == "str" or (k is None and cont.z is not None and hint_kind(item.th) == "str" and st.pure):
             f = z3.Function("str_contains", IntS, IntS, z3.BoolSort())
             return f(V.s(cont.z), V.s(self.to_z(st, item)))
         raise Unsupported(f"`in` on {cont}", node)
